@@ -18,6 +18,7 @@ def parseAction (j : Json) : Except String Action := do
   | "fetch" => pure (.fetch (← argNat j "o") (← natList j "as"))
   | "read" => pure (.read (← argNat j "o") (← argNat j "a"))
   | "find" => pure (.find (← argNat j "o") (← argNat j "a") (← argInt j "v"))
+  | "select" => pure (.select (← argNat j "a") (← argInt j "v") (← argBool j "fu"))
   | "write" => pure (.write (← argNat j "o") (← argNat j "a") (← argInt j "v"))
   | "flush" => pure .flush
   | "commit" => pure .commit
@@ -70,6 +71,8 @@ def handle (j : Json) : Except String Json := do
     let sessOpt ← (← argArr j "sessOpt").mapM (fun x => (fromJson? x : Except String Bool))
     let cfg : Cfg := { attrs := attrs, lazy := fun a => lazy.contains a, volatile := fun a => vol.contains a,
                        attrOpt := fun a => !nonopt.contains a, sessOpt := fun s => sessOpt.getD s true }
+    let objs0 ← natList j "objs"
+    let cfg : Cfg := { cfg with objs := objs0 }
     let rows ← (← argArr j "store").mapM (fun r => do
       match r with
       | .arr #[o, a, v] => pure ((← fromJson? o : Nat), (← fromJson? a : Nat), (← fromJson? v : Int))
